@@ -1,6 +1,7 @@
 import SpecKitV.Lemmas.Taps
 import SpecKitV.Props.TapsGen
 import SpecKitV.Lemmas.TimeShiftPaths
+import SpecKitV.Props.TimeShiftGen
 
 #print axioms tap_eq_lagrange
 #print axioms taps_sum_one
@@ -19,3 +20,23 @@ import SpecKitV.Lemmas.TimeShiftPaths
 #print axioms shiftConst_integer
 #print axioms shiftConst_zero
 #print axioms shiftConst_const
+#print axioms gen_timeshift_even_order
+#print axioms gen_timeshift_tiny
+#print axioms gen_timeshift_zero
+#print axioms gen_timeshift_size_mismatch
+#print axioms gen_timeshift_negative_order
+#print axioms gen_timeshift_const_eq_model
+#print axioms gen_timeshift_var_eq_model
+#print axioms gen_const_interior
+#print axioms gen_const_is_interpolant
+#print axioms gen_const_reproduces_poly
+#print axioms gen_const_integer
+#print axioms gen_zero_identity
+#print axioms gen_const_constant
+#print axioms gen_paths_agree_interior
+#print axioms gen_var_is_interpolant
+#print axioms gen_df_samples
+#print axioms gen_df_order
+#print axioms gen_df_numeric_kinds
+#print axioms gen_df_column_noop
+#print axioms gen_df_column_eq_model
